@@ -1,3 +1,14 @@
--- This module serves as the root of the `Spake2Verif` library.
--- Import modules here that should be built as part of the library.
-import Spake2Verif.Basic
+-- Root of the proof library: imports every proof module.
+import Spake2Verif.Basic.PyLemmas
+import Spake2Verif.Basic.PyLemmas2
+import Spake2Verif.Spec.Primes
+import Spake2Verif.Spec.EdConsts
+import Spake2Verif.Spec.Edwards
+import Spake2Verif.Proofs.BytesLemmas
+import Spake2Verif.Proofs.UtilProofs
+import Spake2Verif.Proofs.RandrangeProofs
+import Spake2Verif.Proofs.JsonProofs
+import Spake2Verif.Proofs.TranscriptProofs
+import Spake2Verif.Proofs.SerializeProofs
+import Spake2Verif.Proofs.EdBridge
+import Spake2Verif.Proofs.EdLadder
